@@ -304,7 +304,7 @@ func (r *RegionScatterer) scatterRegion(region *core.RegionInfo, group string) *
 	// FIXME: target leader only considers the ordinary stores，maybe we need to consider the
 	// special engine stores if the engine supports to become a leader. But now there is only
 	// one engine, tiflash, which does not support the leader, so don't consider it for now.
-	targetLeader := r.selectAvailableLeaderStores(group, targetPeers, r.ordinaryEngine)
+	targetLeader := r.selectAvailableLeaderStores(group, region, targetPeers, r.ordinaryEngine)
 
 	for engine, peers := range specialPeers {
 		ctx, ok := r.specialEngines[engine]
@@ -315,7 +315,11 @@ func (r *RegionScatterer) scatterRegion(region *core.RegionInfo, group string) *
 		scatterWithSameEngine(peers, ctx)
 	}
 
-	op, err := operator.CreateScatterRegionOperator("scatter-region", r.cluster, region, targetPeers, targetLeader)
+	var op *operator.Operator
+	err := errors.New("no store among the target peers accepts the leader")
+	if targetLeader != 0 {
+		op, err = operator.CreateScatterRegionOperator("scatter-region", r.cluster, region, targetPeers, targetLeader)
+	}
 	if err != nil {
 		scatterCounter.WithLabelValues("fail", "").Inc()
 		for _, peer := range region.GetPeers() {
@@ -413,12 +417,20 @@ func (r *RegionScatterer) selectStore(group string, peer *metapb.Peer, sourceSto
 
 // selectAvailableLeaderStores select the target leader store from the candidates. The candidates would be collected by
 // the existed peers store depended on the leader counts in the group level.
-func (r *RegionScatterer) selectAvailableLeaderStores(group string, peers map[uint64]*metapb.Peer, context engineContext) uint64 {
+func (r *RegionScatterer) selectAvailableLeaderStores(group string, region *core.RegionInfo, peers map[uint64]*metapb.Peer, context engineContext) uint64 {
+	// The operator is built with the forced target leader (to ignore the leader
+	// schedule limit), which skips the builder's own check of the store, so the
+	// leader may only move to a voter on a store that accepts leaders. It may
+	// always stay where it is.
+	leaderFilter := &filter.StoreStateFilter{ActionScope: r.name, TransferLeader: true}
 	leaderCandidateStores := make([]uint64, 0)
-	for storeID := range peers {
+	for storeID, peer := range peers {
 		store := r.cluster.GetStore(storeID)
 		engine := store.GetLabelValue(filter.EngineKey)
-		if len(engine) < 1 {
+		if len(engine) >= 1 || core.IsLearner(peer) {
+			continue
+		}
+		if storeID == region.GetLeader().GetStoreId() || leaderFilter.Target(r.cluster.GetOpts(), store) {
 			leaderCandidateStores = append(leaderCandidateStores, storeID)
 		}
 	}
